@@ -56,7 +56,15 @@ impl<'r> Data<'r> {
             if src.is_empty() {
                 None
             } else {
-                Some(decode_field(&mut src))
+                let result = decode_field(&mut src);
+
+                // An invalid field is not necessarily consumed. Stop after the first error
+                // rather than returning it forever.
+                if result.is_err() {
+                    src = &[];
+                }
+
+                Some(result)
             }
         })
     }
@@ -174,6 +182,20 @@ mod tests {
         assert!(data.get(&Tag::COMMENT).is_none());
 
         Ok(())
+    }
+
+    #[test]
+    fn test_iter_with_an_invalid_field() {
+        let data = Data::new(&[b'N', b'H', b'C', 0x01, 0x00]);
+        let mut iter = data.iter();
+        assert!(matches!(iter.next(), Some(Ok(_))));
+        assert!(matches!(iter.next(), Some(Err(_))));
+        assert!(iter.next().is_none());
+
+        let data = Data::new(&[b'N', b'H', b'?', 0x01]);
+        let mut iter = data.iter();
+        assert!(matches!(iter.next(), Some(Err(_))));
+        assert!(iter.next().is_none());
     }
 
     #[test]
